@@ -593,14 +593,47 @@ impl<'a> DocGen<'a> {
             }
             rows.push(self.deco(El::with("tr", cells)).node());
         }
-        let body = if p.thead && rows.len() > 1 && self.rng.chance(1, 4) {
-            let head = rows.remove(0);
-            vec![
-                El::with("thead", vec![head]).node(),
-                El::with("tbody", rows).node(),
-            ]
+        // a row without any cell now and then (renders nothing, but sits where the
+        // markers of its row group would be parked)
+        if p.thead && self.rng.chance(1, 12) {
+            let at = if self.rng.chance(1, 2) { 0 } else { self.rng.below(rows.len() + 1) };
+            let e = self.deco(El::with("tr", Vec::new()));
+            rows.insert(at, e.node());
+        }
+        // row groups: thead (one or two rows), one or two tbody, tfoot (usually last,
+        // sometimes written before the body as HTML 4 asked for); rows are rendered in
+        // source order whatever the group
+        let body = if p.thead && rows.len() > 1 && self.rng.chance(1, 3) {
+            let mut groups: Vec<Node> = Vec::new();
+            let nhead = if rows.len() > 2 && self.rng.chance(1, 3) { 2 } else { 1 };
+            let head: Vec<Node> = rows.drain(..nhead).collect();
+            let foot: Option<Node> = if rows.len() > 1 && self.rng.chance(1, 3) { rows.pop() } else { None };
+            let e = self.deco(El::with("thead", head));
+            groups.push(e.node());
+            let foot_first = foot.is_some() && self.rng.chance(1, 4);
+            if foot_first {
+                let e = self.deco(El::with("tfoot", vec![foot.clone().unwrap()]));
+                groups.push(e.node());
+            }
+            if rows.len() > 1 && self.rng.chance(1, 3) {
+                let k = self.rng.range(1, rows.len() - 1);
+                let second: Vec<Node> = rows.drain(k..).collect();
+                let e = self.deco(El::with("tbody", rows));
+                groups.push(e.node());
+                let e = self.deco(El::with("tbody", second));
+                groups.push(e.node());
+            } else {
+                let e = self.deco(El::with("tbody", rows));
+                groups.push(e.node());
+            }
+            if let (Some(f), false) = (foot, foot_first) {
+                let e = self.deco(El::with("tfoot", vec![f]));
+                groups.push(e.node());
+            }
+            groups
         } else {
-            vec![El::with("tbody", rows).node()]
+            let e = self.deco(El::with("tbody", rows));
+            vec![e.node()]
         };
         self.deco(El::with("table", body)).node()
     }
